@@ -23,6 +23,9 @@ T = {
  "C06": ("property-based testing (byte-stream PBT, string grammar with must-accept / must-reject classes, refint radix oracle) + libFuzzer in thorough",
          "Generated-input search over get_str/out_str/sizeinbase/mpn_get_str (every base 2..62, -2..-36, mpn up to 256; exact-size buffers under ASan) and set_str/init_set_str/inp_str/mpn_set_str/mpq_set_str on strings produced by a grammar (prefixes, case rules, white space, leading zeros) and on mutations that must be rejected; values and digit strings are decided by an independent reference conversion, plus the get_str->set_str/inp_str round trip. Exploration: exact executable oracle; strings whose status the manual leaves open are not asserted.",
          "DESIGN.md section 5 C06"),
+ "C07": ("property-based testing (byte-stream PBT, operands built backwards from quotient sequences, refint certificates) + libFuzzer in thorough",
+         "Generated-input search over gcd/gcdext/lcm/invert/mpn_gcd/mpn_gcdext/mpn_gcd_1 and the Jacobi/Kronecker entry points: operand pairs are g*(x,y) with coprime (x,y) constructed from chosen quotient sequences (Fibonacci-like runs, huge partial quotients), special relations (a=b, b|a, |b|=2g, zero) and sizes around the Lehmer/HGCD/sub-quadratic crossovers; results are decided by refint certificates (g|a, g|b, a*s+b*t=g), the manual's cofactor rules, and a textbook Kronecker recursion. Exploration: executable exact oracle for a universally quantified property.",
+         "DESIGN.md section 5 C07"),
 }
 built = [i for i in ids if i in T and os.path.exists(os.path.join(ROOT, "props", i + ".cc")) or os.path.exists(os.path.join(ROOT, "props", i + "_run.py"))]
 checks = []
